@@ -834,7 +834,9 @@ func (c *Ctx) c19CheckProcJob(bt *Batch, jb *procJob) {
 	stream, i := jb.Stream, jb.Index
 	c.Evals++
 	in := map[string]any{"argv": jb.Cmd.Args, "journal": jb.J.Text, "fault": jb.J.Fault, "race": jb.Race}
-	stripPath := func(s string) string { return regexp.MustCompile(`/[^\s:"]*journal\.knut`).ReplaceAllString(s, "journal.knut") }
+	stripPath := func(s string) string {
+		return regexp.MustCompile(`/[^\s:"]*journal\.knut`).ReplaceAllString(s, "journal.knut")
+	}
 	base := jb.base
 	if i < 2 {
 		c.Sample(map[string]any{"stream": stream, "argv": jb.Cmd.Args, "fault": jb.J.Fault, "exit": base.Exit, "stdout": clip(base.Stdout)[:min(300, len(clip(base.Stdout)))]})
@@ -1456,8 +1458,8 @@ func (c *Ctx) c19Shared() {
 	reps := c.N(12, 30)
 	type job struct {
 		Index, Files, Comms int
-		flat             procResult
-		runs             []procResult
+		flat                procResult
+		runs                []procResult
 	}
 	var jobs []*job
 	for i := 0; i < n; i++ {
@@ -1500,7 +1502,7 @@ func (c *Ctx) c19Shared() {
 		c.Evals++
 		c.Class(fmt.Sprintf("shared/files%s/comms%s", nbucket(jb.Files), nbucket(jb.Comms)))
 		in := map[string]any{"files": jb.Files, "new_commodities_per_file": jb.Comms,
-			"layout": "root.knut opens Equity:A1 and Assets:A0 and includes f0..f<files-1>; file f books `Equity:A1 Assets:A0 <f+1> K<k>` for k < new_commodities_per_file on 2020-01-<2+f>; flat.knut is the concatenation",
+			"layout":  "root.knut opens Equity:A1 and Assets:A0 and includes f0..f<files-1>; file f books `Equity:A1 Assets:A0 <f+1> K<k>` for k < new_commodities_per_file on 2020-01-<2+f>; flat.knut is the concatenation",
 			"command": "knut balance root.knut  vs  knut balance flat.knut"}
 		c.Monitor("shared", jb.Index, "terminates", in, !jb.flat.Timeout, "timeout")
 		for k, pr := range jb.runs {
